@@ -113,21 +113,27 @@ def _through_enforce(name, rule_text, cases, oracle):
                 e = policy.Enforcer(conf, use_conf=False)
                 e.set_rules(policy.Rules.load('{"p": %s}' % __import__('json').dumps(text)), use_conf=False)
                 want = oracle(text, target, creds)
-                try:
-                    with warnings.catch_warnings():
-                        warnings.simplefilter('ignore')
-                        got = bool(e.enforce('p', target, creds))
-                except Exception as ex:     # noqa
-                    got = 'raised %s' % type(ex).__name__
-                key = (text, _safe(target), _safe(creds), 'DEBUG' if level == logging.DEBUG else 'WARNING')
-                distinct.add(key)
-                if len(sample) < 3:
-                    sample.append({'case': key, 'result': got})
-                if got != want:
-                    viol.append({'key': key, 'detail': 'enforce of %r with target %s and credentials %s (logger at %s) decided %r, '
-                                                       'the documented reading gives %r' % (text, _safe(target), _safe(creds), key[3], got, want)})
-                    if len(viol) >= 3:
-                        raise StopIteration
+                reps = [('dict', creds)]
+                if set(creds) <= {'roles'}:
+                    # the same credentials as a RequestContext (enforce converts it itself)
+                    from oslo_context import context as _ctx
+                    reps.append(('context', _ctx.RequestContext(roles=list(creds.get('roles', [])))))
+                for rep, cr in reps:
+                    try:
+                        with warnings.catch_warnings():
+                            warnings.simplefilter('ignore')
+                            got = bool(e.enforce('p', target, cr))
+                    except Exception as ex:     # noqa
+                        got = 'raised %s' % type(ex).__name__
+                    key = (text, _safe(target), _safe(creds), 'DEBUG' if level == logging.DEBUG else 'WARNING', rep)
+                    distinct.add(key)
+                    if len(sample) < 3:
+                        sample.append({'case': key, 'result': got})
+                    if got != want:
+                        viol.append({'key': key, 'detail': 'enforce of %r with target %s and credentials %s given as %s (logger at %s) decided %r, '
+                                                           'the documented reading gives %r' % (text, _safe(target), _safe(creds), rep, key[3], got, want)})
+                        if len(viol) >= 3:
+                            raise StopIteration
     except StopIteration:
         pass
     finally:
@@ -138,6 +144,10 @@ def _through_enforce(name, rule_text, cases, oracle):
 
 
 def _role_oracle(text, target, creds):
+    if ' or ' in text:
+        return any(_role_oracle(t, target, creds) for t in text.split(' or '))
+    if ' and ' in text:
+        return all(_role_oracle(t, target, creds) for t in text.split(' and '))
     match = text.split(':', 1)[1]
     try:
         m = match % target
@@ -148,10 +158,13 @@ def _role_oracle(text, target, creds):
 
 def c04(tier='quick', seed=0):
     texts = ['role:admin', 'role:%(target.secret.required_role)s', 'role:%(target.token.role)s', 'role:%(password)s',
-             'role:%(api_key)s', 'role:%(r)s', 'role:%(auth_token)s-%(r)s']
+             'role:%(api_key)s', 'role:%(r)s', 'role:%(auth_token)s-%(r)s',
+             # several role checks in one evaluation: each of them reads the whole role list
+             'role:zzz or role:admin', 'role:zzz or role:yyy or role:%(r)s', 'role:admin and role:keeper', 'role:keeper and role:keeper']
     targets = [{}, {'target.secret.required_role': 'keeper', 'r': 'x'}, {'target.token.role': 'Admin', 'password': 'admin'},
                {'api_key': 'k1', 'auth_token': 'tok', 'r': 'admin'}, {'r': 'password=abc'}, {'password': '***', 'r': '***'}]
     creds = [{'roles': []}, {'roles': ['keeper']}, {'roles': ['admin']}, {'roles': ['***']}, {'roles': ['k1', 'tok-admin']},
+             {'roles': ['Admin', 'Keeper']}, {'roles': ['x']},
              {'roles': ['password=abc']}, {'roles': ['ADMIN'], 'password': 'x', 'token': 'admin'}]
     import itertools as _it
     return _through_enforce('role check through enforce', 'role: rules (literal and placeholder forms whose target keys and values '
